@@ -191,6 +191,9 @@ def sc(x, k):
     return int(round(v))
 
 
+_OTHER_DISSIM = {}
+
+
 def make_record(pa, c, d, al, D, de_int, scale, mode, tol, *, search, band=0, want_backend="", got_backend="",
                 modelopt=-1, with_recompute=True, cands=None, bestcost=-1, rng=None, meta=None):
     """One TraceAlign record for alignment `al` of continuum `c` under dissimilarity `d`."""
@@ -217,7 +220,9 @@ def make_record(pa, c, d, al, D, de_int, scale, mode, tol, *, search, band=0, wa
         # the disorder of this very object is first computed under ANOTHER dissimilarity, then under d: what is judged is the
         # second computation (nothing of the first may be remembered)
         try:
-            fresh.compute_disorder(pa.PositionalSporadicDissimilarity(delta_empty=0.25))
+            if "other" not in _OTHER_DISSIM:       # one object for the whole run (every new one is a JIT compilation)
+                _OTHER_DISSIM["other"] = pa.PositionalSporadicDissimilarity(delta_empty=0.25)
+            fresh.compute_disorder(_OTHER_DISSIM["other"])
         except Exception:
             pass
         rtot = sc(fresh.compute_disorder(d) * (U / n), k)
